@@ -11,7 +11,7 @@ Property theorems only (helper lemmas are in `Lemmas/Resample.lean`). The model
 `(x, y, z, t)` with `t = timestamp.toAbsTime()`; the stamp of an output is the C03 model (`stampOf`). All
 statements are over an arbitrary linearly ordered field (ℚ, ℝ): for every track, every list of instants, every step.
 Sections: T1–T4 (temporal / spatial), D1–D4 (degenerate requests), S1 (millisecond stamps), T3d (pauses),
-O1–O4 (callers).
+O1–O5 (callers).
 
 `sampleT P t` / `sampleS P S s` (Lemmas) are the *specification* samples: the point of the leg
 `r = firstGE v V` — the number of abscissas `< v`, i.e. the first index with `v ≤ V[r]` — at fraction
@@ -592,6 +592,36 @@ theorem collection_resample (sqrt : α → α) (trunc : α → Int) (g : α)
             rw [(ih _).mpr h2] at hrest; cases hrest
             rfl
 
+/-- O5 `collection_floordiv`. `collection // ref` (`TrackCollection.__floordiv__`, fix commit ea8666e) on a
+collection of non-empty tracks whose stamps never decrease raises nothing and returns, for every track in order, that
+track's own TEMPORAL resampling at the stamps of the reference track: exactly one observation per stamp of `ref` lying
+in the track's `(tini, tfin]`, in the order of `ref`, each the specification sample (T2), with an empty feature
+table — i.e. `track // ref` for every track (O1). The reference may be empty, unsorted, or outside every range. -/
+theorem collection_floordiv (sqrt : α → α) (trunc : α → Int) (g : α)
+    (tracks : List (List (Fix α) × List String)) (Q : List (Fix α))
+    (hne : ∀ tr ∈ tracks, 0 < tr.1.length) (hT : ∀ tr ∈ tracks, (tr.1.map (·.t)).Pairwise (· ≤ ·)) :
+    collFloordiv sqrt trunc g tracks Q
+      = .ok (tracks.map (fun tr =>
+          (((Q.map (·.t)).filter (inRange (tr.1[0]?.getD zeroFix).t (tr.1[tr.1.length - 1]?.getD zeroFix).t)).map
+            (sampleT tr.1), []))) ∧
+    collFloordiv sqrt trunc g tracks Q = tracks.mapM (fun tr => floordiv sqrt trunc g tr.1 tr.2 Q) := by
+  refine ⟨?_, rfl⟩
+  unfold collFloordiv
+  induction tracks with
+  | nil => rfl
+  | cons tr rest ih =>
+    have hn : 0 < tr.1.length := hne tr List.mem_cons_self
+    have h1 := (operators sqrt trunc g tr.1 tr.2 hn (hT tr List.mem_cons_self)).1 Q
+    unfold floordiv at h1
+    rw [List.mapM_cons, h1, ih (fun t ht => hne t (List.mem_cons_of_mem _ ht))
+      (fun t ht => hT t (List.mem_cons_of_mem _ ht))]
+    simp only [List.map_cons]
+    have e0 : tr.1[0]?.getD zeroFix = tr.1[0] := by simp [hn]
+    have e1 : tr.1[tr.1.length - 1]?.getD zeroFix = tr.1[tr.1.length - 1] := by
+      rw [List.getElem?_eq_getElem (by omega)]; rfl
+    rw [e0, e1]
+    rfl
+
 /-! ### non-vacuity -/
 
 /-- the contract of `int()` is met by the floor function on ℚ (what the driver uses on non-negative values) -/
@@ -698,8 +728,11 @@ example : synchronize (fun x : ℚ => x) (fun x : ℚ => x.floor) 1
 /-- a collection of two tracks resampled every 10 s -/
 example : (collResample (fun x : ℚ => x) (fun x : ℚ => x.floor) 1 [(syncA, []), (syncB, ["f"])] 2 (.number 10)).toOption.map
     (fun l => l.map (fun r => (r.1.map (·.t), r.2))) = some [([10, 20], []), ([15, 25, 35, 45], [])] := by decide +kernel
-/-- FINDING mirrored by the model: `collection // ref` calls `Track.resample(ref)` in the default SPATIAL mode and
-raises TypeError on the first track instead of resampling in time -/
-example : collFloordiv (fun x : ℚ => x) (fun x : ℚ => x.floor) 1 [(syncA, [])] syncB = .error .type := by decide +kernel
+/-- `collection // ref` (fix commit ea8666e): every track is resampled IN TIME at the stamps of the reference — here
+`syncB`'s stamps 5, 12, 20, 47 s, of which 5, 12, 20 lie in `syncA`'s range (0, 25] and 12, 20, 47 in `syncB`'s (5, 47] -/
+example : (collFloordiv (fun x : ℚ => x) (fun x : ℚ => x.floor) 1 [(syncA, ["f"]), (syncB, [])] syncB).toOption.map
+    (fun l => l.map (fun r => (r.1.map (·.t), r.2))) = some [([5, 12, 20], []), ([12, 20, 47], [])] := by decide +kernel
+example : collFloordiv (fun x : ℚ => x) (fun x : ℚ => x.floor) 1 [(syncA, [])] syncB
+    = .ok [([⟨25/12, 0, 0, 5⟩, ⟨5, 0, 0, 12⟩, ⟨5 + 24/11, 0, 0, 20⟩], [])] := by decide +kernel
 
 end TV.C05
